@@ -32,7 +32,9 @@ var (
 		{"Bearer tok", "valid"}, {"bearer tok", "valid"}, {"BEARER tok", "valid"}, {"BeArEr tok", "valid"},
 		{"Bearer  tok", "borderline"}, {"Bearer\ttok", "borderline"}, {" Bearer tok", "borderline"}, {"Bearer tok ", "borderline"},
 	}
-	c14Outcomes = []string{"ok", "invalid-token", "invalid-token-wrapped", "oauth-error", "other-error", "nil-info"}
+	// "+info": the verifier returns a usable TokenInfo together with the error (as JWT libraries do)
+	c14Outcomes = []string{"ok", "invalid-token", "invalid-token-wrapped", "oauth-error", "other-error", "nil-info", "invalid-token+info", "oauth-error+info", "other-error+info"}
+	c14Stacked  = []bool{false, true}
 	c14Scopes   = []struct{ required, granted []string }{
 		{nil, nil}, {nil, []string{"read"}}, {[]string{"read"}, []string{"read"}}, {[]string{"read"}, nil}, {[]string{"read", "admin"}, []string{"read"}},
 		{[]string{"read", "admin"}, []string{"admin", "read", "extra"}}, {[]string{"read", "admin"}, []string{"read", "read"}}, {[]string{"read", "read"}, []string{"read"}},
@@ -44,12 +46,12 @@ var (
 )
 
 func TestVerifC14(t *testing.T) {
-	total := len(c14Headers) * len(c14Outcomes) * len(c14Scopes) * len(c14Exps) * len(c14Opts)
+	total := len(c14Headers) * len(c14Outcomes) * len(c14Scopes) * len(c14Exps) * len(c14Opts) * len(c14Stacked)
 	cfg := vh.Config{
 		Property:   "C14",
 		Cases:      total,
 		Exhaustive: true,
-		Rule: fmt.Sprintf("complete product (%d cells): %d Authorization shapes x %d verifier outcomes x %d required/granted scope pairs x %d expirations (relative to now and skew, +-1 ns) x %d option combinations, each through the real middleware in a synctest bubble. "+
+		Rule: fmt.Sprintf("complete product (%d cells): %d Authorization shapes x %d verifier outcomes x %d required/granted scope pairs x %d expirations (relative to now and skew, +-1 ns) x %d option combinations x {single middleware, the same behind an outer bearer middleware with its own verifier}, each through the real middleware in a synctest bubble. "+
 			"non-trivial: every cell whose header is syntactically clear-cut; distinct = distinct cells", total, len(c14Headers), len(c14Outcomes), len(c14Scopes), len(c14Exps), len(c14Opts)),
 		MinNontrivial: 1000,
 		Assumptions: []string{"header shapes with extra blanks or tabs are borderline: either verdict (401, or treated as a credential) is accepted for them, but the handler/verdict must be consistent",
@@ -66,12 +68,14 @@ func TestVerifC14(t *testing.T) {
 		exp := c14Exps[i%len(c14Exps)]
 		i /= len(c14Exps)
 		optk := c14Opts[i%len(c14Opts)]
-		c.SetSpec(map[string]any{"header": hd.h, "class": hd.class, "verifier": outcome, "required": sc.required, "granted": sc.granted, "exp": exp, "opts": optk})
-		c.Bubble("", func() { cellC14(c, hd.h, hd.class, outcome, sc.required, sc.granted, exp, optk) })
+		i /= len(c14Opts)
+		stacked := c14Stacked[i%len(c14Stacked)]
+		c.SetSpec(map[string]any{"header": hd.h, "class": hd.class, "verifier": outcome, "required": sc.required, "granted": sc.granted, "exp": exp, "opts": optk, "stacked": stacked})
+		c.Bubble("", func() { cellC14(c, hd.h, hd.class, outcome, sc.required, sc.granted, exp, optk, stacked) })
 	})
 }
 
-func cellC14(c *vh.Case, header, class, outcome string, required, granted []string, exp, optk string) {
+func cellC14(c *vh.Case, header, class, outcome string, required, granted []string, exp, optk string, stacked bool) {
 	// move the (virtual) clock off the whole second the bubble starts at, so that
 	// nanosecond offsets around the deadline stay within one wall-clock second
 	time.Sleep(300*time.Millisecond + 7*time.Nanosecond)
@@ -139,6 +143,12 @@ func cellC14(c *vh.Case, header, class, outcome string, required, granted []stri
 			return nil, fmt.Errorf("%w: invalid_request", auth.ErrOAuth)
 		case "other-error":
 			return nil, errors.New("database down")
+		case "invalid-token+info":
+			return info, fmt.Errorf("signature check failed: %w", auth.ErrInvalidToken)
+		case "oauth-error+info":
+			return info, fmt.Errorf("%w: invalid_request", auth.ErrOAuth)
+		case "other-error+info":
+			return info, errors.New("database down")
 		}
 		return nil, nil
 	}
@@ -149,6 +159,12 @@ func cellC14(c *vh.Case, header, class, outcome string, required, granted []stri
 		seen = auth.TokenInfoFromContext(r.Context())
 		w.WriteHeader(299)
 	}))
+	if stacked {
+		// a site-wide bearer middleware in front, with its own verifier that admits every credential
+		outerInfo := &auth.TokenInfo{UserID: "outer", Scopes: []string{"outer-scope"}, Expiration: now.Add(time.Hour)}
+		inner := h
+		h = auth.RequireBearerToken(func(context.Context, string, *http.Request) (*auth.TokenInfo, error) { return outerInfo, nil }, nil)(inner)
+	}
 	req := httptest.NewRequest("GET", "https://rs.example/mcp", nil)
 	if header != "" {
 		req.Header.Set("Authorization", header)
@@ -183,11 +199,11 @@ func cellC14(c *vh.Case, header, class, outcome string, required, granted []stri
 	switch {
 	case class == "invalid":
 		want = []int{401}
-	case outcome == "invalid-token" || outcome == "invalid-token-wrapped":
+	case outcome == "invalid-token" || outcome == "invalid-token-wrapped" || outcome == "invalid-token+info":
 		want = []int{401}
-	case outcome == "oauth-error":
+	case outcome == "oauth-error" || outcome == "oauth-error+info":
 		want = []int{400}
-	case outcome == "other-error" || outcome == "nil-info":
+	case outcome == "other-error" || outcome == "nil-info" || outcome == "other-error+info":
 		want = []int{500}
 	case !scopesOK && expired:
 		want = []int{401, 403}
@@ -232,7 +248,9 @@ func cellC14(c *vh.Case, header, class, outcome string, required, granted []stri
 	ch := rec.Header().Values("WWW-Authenticate")
 	wantURL := opts != nil && opts.ResourceMetadataURL != ""
 	wantScope := opts != nil && len(opts.Scopes) > 0
-	if st == 401 || st == 403 {
+	if stacked && class != "valid" {
+		// the outer middleware (no options) may have answered: its challenge is not the one under test
+	} else if st == 401 || st == 403 {
 		if (wantURL || wantScope) && len(ch) == 0 {
 			c.Violate("challenge-missing", "status %d without WWW-Authenticate although resource metadata / scopes are configured (opts %s)", st, optk)
 			return
@@ -259,6 +277,6 @@ func cellC14(c *vh.Case, header, class, outcome string, required, granted []stri
 		c.Count("admitted", 1)
 	}
 	if class != "borderline" {
-		c.Nontrivial(fmt.Sprintf("%q/%s/%v/%v/%s/%s", header, outcome, effRequired, granted, exp, optk))
+		c.Nontrivial(fmt.Sprintf("%q/%s/%v/%v/%s/%s/%v", header, outcome, effRequired, granted, exp, optk, stacked))
 	}
 }
